@@ -22,6 +22,7 @@ EXPLANATION = (
     "conversion under `is_dataframe` is matched by .collect() under the same flag on every path to the return, and "
     "the pandas entry points return an object derived from the working object. NOT decided: bit-for-bit equality "
     "under pandas view/copy semantics; writes performed inside pandas/polars themselves."
+    ' (R3) ColumnBackend.validate re-binds the frame it returns to the result of the array-level validation (the parsed column whenever run_parsers replaced the working object) only under a kind test or the absence of parsers; a new value has the kind of the object its expression is rooted at (frame[mask] stays a frame).'
 )
 LEVEL_RULE = "one obligation per (entry point, write site reaching the caller's object) and per conversion site"
 FLOORS = {"R1": 12, "R2": 4}
@@ -145,6 +146,70 @@ def r2_kind(ctx):
                f"return value: {len(rooted)} origin(s) derived from `{data}`, {len(fresh)} fresh" if ok else "return value unrelated to the input")
 
 
+def r3_frame_never_rebound_to_the_parsed_column(ctx):
+    """A keyed Column is validated by the array backend, whose `run_parsers` replaces the working object with the parser
+    output (for a table: the parsed *column* `schema.name`) and whose `validate` returns that.  The column backend may
+    store that result into a column slot of the frame; binding the frame variable - the object `validate` returns - to
+    it turns `Column.validate(DataFrame)` into a Series whenever the schema has parsers.  A re-binding of the returned
+    table to the array-level result is therefore guarded by a kind test (`is_table` / isinstance) or by the absence of
+    parsers."""
+    ix = ctx.ix
+    arr = ix.cls("pandera/backends/pandas/array.py::ArraySchemaBackend")
+    rp = arr.lookup("run_parsers")
+    if rp is None:
+        raise AnalysisError("ArraySchemaBackend.run_parsers missing")
+    premise = any(isinstance(st, ast.Assign) and any(isinstance(x, ast.Attribute) and x.attr == "parser_output" for x in ast.walk(st.value))
+                  for st in function_stmts(rp)) and any(isinstance(st, ast.Return) for st in function_stmts(rp))
+    ctx.touched(rp)
+    ctx.ob("R3", rp, "premise: run_parsers answers the parser output (a column for a keyed table)", True,
+           "holds" if premise else "run_parsers no longer replaces the working object: the rule below has nothing to guard")
+    col = ix.cls("pandera/backends/pandas/components.py::ColumnBackend")
+    v = col.lookup("validate")
+    if v is None:
+        raise AnalysisError("ColumnBackend.validate missing")
+    ctx.touched(v)
+    table = v.positional[1] if len(v.positional) > 1 else "check_obj"
+    inner = {n for n, h in v.nested.items() if any(isinstance(c.func, ast.Call) and callee_last(c.func) == "super" or
+                                                   (isinstance(c.func, ast.Attribute) and isinstance(c.func.value, ast.Call) and callee_last(c.func.value) == "super")
+                                                   for c in calls_in(h.node))}
+    if not inner:
+        raise AnalysisError("ColumnBackend.validate: helper delegating to the array backend not found")
+    cfg = cfg_of(v.node)
+    carriers = set()
+    for st in function_stmts(v):
+        if isinstance(st, ast.Assign) and isinstance(st.value, ast.Call) and callee_last(st.value) in inner:
+            carriers |= {t.id for t in st.targets if isinstance(t, ast.Name)}
+    n = 0
+    for st in function_stmts(v):
+        if not (isinstance(st, ast.Assign) and any(isinstance(t, ast.Name) and t.id == table for t in st.targets)):
+            continue
+        # the kind of the new value is the kind of the object the expression is rooted at: `frame[mask]`, `frame.loc[...]`,
+        # `frame.copy()` stay tables whatever the subscript mentions; `result`, `result.copy()`, `helper(...)` have the result's kind
+        root = st.value
+        while True:
+            if isinstance(root, (ast.Subscript, ast.Attribute)):
+                root = root.value
+            elif isinstance(root, ast.Call) and isinstance(root.func, ast.Attribute):
+                root = root.func.value
+            else:
+                break
+        src = (isinstance(root, ast.Name) and root.id in carriers) or (isinstance(root, ast.Call) and callee_last(root) in inner)
+        if not src:
+            continue
+        n += 1
+        node = cfg.node_of(st)
+        guards = cfg.guards(node.id) if node is not None else []
+        kind_guard = any((("is_table(" in txt(t) or "isinstance(" in txt(t)) and pol) or ("is_field(" in txt(t) and not pol) or
+                         ("parsers" in txt(t) and not pol and not isinstance(t, ast.BoolOp)) for t, pol in guards)
+        ok = kind_guard or not premise
+        ctx.ob("R3", v, f"`{txt(st)[:50]}`: the returned frame is re-bound to the array-level result only when that is a table", ok,
+               "guarded by a kind test / no parsers" if ok else
+               f"`{txt(st)}` binds the object validate returns to what the array backend answered - the parsed column when the schema has parsers: "
+               "Column(int, name='a', parsers=Parser(...), drop_invalid_rows=True).validate(df, lazy=True) returns a Series, column b is gone", v.loc(st))
+    if n < 1 and premise:
+        ctx.ob("R3", v, "ColumnBackend.validate never re-binds the returned frame to the array-level result", True, "no such re-binding")
+
+
 def _must_pass_skip(cfg, src, dsts, through, skip_edges):
     prev = {src: None}
     todo = [src]
@@ -168,3 +233,4 @@ def _must_pass_skip(cfg, src, dsts, through, skip_edges):
 def run(ctx):
     r1_ownership(ctx)
     r2_kind(ctx)
+    r3_frame_never_rebound_to_the_parsed_column(ctx)
